@@ -14,6 +14,9 @@ Local Open Scope Z_scope.
 
 Definition under (q k : str) : bool := str_eqb k q || has_prefix (q ++ [US]) k.
 
+(* the variables a load at prefix p can read *)
+Definition below (p : str) (E : env) : env := filter (fun kv => under p (fst kv)) E.
+
 Definition is_nil {A} (l : list A) : bool := match l with [] => true | _ => false end.
 Definition no_us (s : str) : bool := forallb (fun c => negb (c =? US)) s.
 Definition no_comma (s : str) : bool := forallb (fun c => negb (c =? COMMA)) s.
@@ -197,6 +200,19 @@ Definition dominated (t : ty) (o : option value) (v : value) : bool :=
   match o with
   | Some d => dom t d v
   | None => has_vars t v && dom t (zero OR t) v
+  end.
+
+(* field by field: either no variable below the field's name and the value is the previous (file) one, or the
+   variables below its name are the canonical spelling of an expressible value that the previous one allows *)
+Fixpoint field_rel (fs : fields) (E : env) (p : str) (dvs vs : vals) : Prop :=
+  match fs, dvs, vs with
+  | FNil, VNil, VNil => True
+  | FCons tag ft r, VCons d dr, VCons v vr =>
+      let q := sub p (fname tag) in
+      ((below q E = [] /\ v = d) \/
+       (wt ft v = true /\ expressible ft v = true /\ dom ft d v = true /\ below q E = env_of OR ft q v))
+      /\ field_rel r E p dr vr
+  | _, _, _ => False
   end.
 
 End Spec.
